@@ -117,9 +117,9 @@ static long slot_of(void* addr) {
   if (off < offsetof(struct kbq, _queue)) return -1;
   return (long)((off - offsetof(struct kbq, _queue)) / sizeof(struct entry));
 }
-_Bool mon_probes_on, mon_log_on;       /* which recordings a harness needs (constants: unused recordings vanish from the formula) */
+_Bool mon_probes_on, mon_log_on, mon_scan_weak;       /* which recordings a harness needs (constants: unused recordings vanish from the formula) */
 static void mon_load(void* addr, uint64_t v, int o) {
-  if (mon_probes_on) { long s = slot_of(addr); if (s >= 0) { if (mon_nprobe < NPROBE) mon_probe[mon_nprobe] = (uint64_t)s; mon_nprobe++; } }
+  if (mon_probes_on) { long s = slot_of(addr); if (s >= 0) { if (!XV_IS_ACQUIRE(o)) mon_scan_weak = 1; if (mon_nprobe < NPROBE) mon_probe[mon_nprobe] = (uint64_t)s; mon_nprobe++; } }
   if (!mon_log_on) return;
   if (addr == (void*)&mon_q->_tail) { if (!mon_tail_loads) mon_tail_first = v; mon_tail_last = v; mon_tail_last_clock = xv_clock; mon_tail_loads++; }
   if (addr == (void*)&mon_q->_head) { if (!mon_head_loads) mon_head_first = v; mon_head_last = v; mon_head_last_clock = xv_clock; mon_head_loads++; }
@@ -130,22 +130,22 @@ static void mon_store(void* addr, uint64_t v, int o) { mon_plain_store = 1; }
 
 /* kbq.advance.by_k: head/tail change only by CAS, to (index+k mod size, tag+1) or - head only, in committed - to (index, tag+1) */
 static void mon_cas(void* addr, uint64_t e, uint64_t d, _Bool ok, int o) {
-  long s = mon_log_on ? slot_of(addr) : -1;
-  if (s >= 0) { mon_slot_cas_n++; if (ok) mon_slot_cas_ok_n++; mon_slot_cas_idx = (uint64_t)s; mon_slot_cas_e = e; mon_slot_cas_d = d; mon_slot_cas_ok = ok; mon_slot_cas_order = o; mon_slot_cas_clock = xv_clock; }
+#ifdef XV_INT
+  env_own_cas(addr, e, d, ok);
+#endif
   if (addr == (void*)&mon_q->_head || addr == (void*)&mon_q->_tail) {
     uint64_t adv = MI_get(e) + mon_q->_k; if (adv >= mon_q->_queue_size) adv -= mon_q->_queue_size;
     _Bool moved = MI_get(d) == adv, bumped = MI_get(d) == MI_get(e) && addr == (void*)&mon_q->_head;
     if (!((moved || bumped) && MI_mark(d) == ((MI_mark(e) + 1) & TAG_MASK))) mon_adv_ok = 0;
-    if (!mon_log_on) return;
-    if (addr == (void*)&mon_q->_tail) { mon_tail_cas_n++; mon_tail_cas_e = e; mon_tail_cas_d = d; mon_tail_cas_clock = xv_clock; }
-    else { mon_head_cas_n++; mon_head_cas_e = e; mon_head_cas_d = d; mon_head_cas_ok = ok; }
   }
-#ifdef XV_INT
-  env_own_cas(addr, e, d, ok);
-#endif
+  if (!mon_log_on) return;
+  long s = slot_of(addr);
+  if (s >= 0) { mon_slot_cas_n++; if (ok) mon_slot_cas_ok_n++; mon_slot_cas_idx = (uint64_t)s; mon_slot_cas_e = e; mon_slot_cas_d = d; mon_slot_cas_ok = ok; mon_slot_cas_order = o; mon_slot_cas_clock = xv_clock; }
+  if (addr == (void*)&mon_q->_tail) { mon_tail_cas_n++; mon_tail_cas_e = e; mon_tail_cas_d = d; mon_tail_cas_clock = xv_clock; }
+  if (addr == (void*)&mon_q->_head) { mon_head_cas_n++; mon_head_cas_e = e; mon_head_cas_d = d; mon_head_cas_ok = ok; }
 }
 static void mon_reset(struct kbq* q) {
-  mon_q = q; mon_probes_on = 0; mon_log_on = 0; mon_nprobe = 0; mon_adv_ok = 1; mon_plain_store = 0; mon_slot_cas_ok_n = 0; mon_slot_cas_n = 0; mon_tail_loads = 0; mon_head_loads = 0;
+  mon_q = q; mon_probes_on = 0; mon_log_on = 0; mon_scan_weak = 0; mon_nprobe = 0; mon_adv_ok = 1; mon_plain_store = 0; mon_slot_cas_ok_n = 0; mon_slot_cas_n = 0; mon_tail_loads = 0; mon_head_loads = 0;
   mon_tail_cas_n = 0; mon_head_cas_n = 0; g_released = 0; g_stored = 0; g_del_once = 0; g_del_twice = 0; xv_threw = 0; xv_clock = 0;
 }
 
@@ -161,6 +161,9 @@ void h_ctor(void) {
   q._queue_size = nondet_u64(); q._k = nondet_size(); q._head = nondet_u64(); q._tail = nondet_u64();
   in_k = nondet_u64(); in_s = nondet_u64(); in_v = nondet_u64(); in_m = nondet_u64();
   XV_ASSUME(in_k >= 1 && in_s >= 1);
+#ifdef XV_TRACE_SMALL
+  XV_ASSUME(in_k <= 1024 && in_s <= 70000);      /* counterexample extraction only: the replay allocates the queue */
+#endif
   kbq_ctor(&q, in_k, in_s);
   if (xv_threw) { XV_CANARY("ctor.rejected"); return; }
   /* _queue_size == k*num_segments without wrap-around  <=>  (k*num_segments mod 2^64) / k == num_segments; the constructor must have made exactly this test */
@@ -211,13 +214,14 @@ void h_not_in_valid(void) {
 #define FOR_SHAPES(call) do { in_k = nondet_u64(); in_s = nondet_u64(); \
   for (unsigned k_ = KLO; k_ <= KMAX; k_++) for (unsigned S_ = 1; S_ <= SMAX; S_++) if (((SMASK >> S_) & 1) && in_k == k_ && in_s == S_) { call; } } while (0)
 
-uint64_t g_age[NMAX], g_next_age;
+uint64_t g_age[NMAX], g_next_age, in_hs, in_ts, in_occ;      /* in_*: the quiescent state, for the native replay */
 static void havoc_shape(struct kbq* q, uint64_t k, uint64_t S) {
   q->_k = k; q->_queue_size = k * S;
   uint64_t hs = nondet_u64(), ts = nondet_u64(); XV_ASSUME(hs < S && ts < S);
   uint64_t htag = nondet_u64(), ttag = nondet_u64(); XV_ASSUME(htag <= TAG_MASK && ttag <= TAG_MASK);
   q->_head = (hs * k) | (htag << XV_BITS); q->_tail = (ts * k) | (ttag << XV_BITS);
   for (unsigned i = 0; i < NMAX; i++) { q->_queue[i].value = nondet_u64(); g_age[i] = nondet_u64(); }
+  in_hs = hs; in_ts = ts; in_occ = 0; for (unsigned i = 0; i < NMAX; i++) if (i < k * S && MV_get(q->_queue[i].value) != 0) in_occ |= ((uint64_t)1) << i;
   g_next_age = nondet_u64(); XV_ASSUME(g_next_age < (((uint64_t)1) << 63));      /* fewer than 2^63 pushes in the life of a queue (ghost counter) */
 }
 /* segment number of a head/tail position; S if the position is not a segment boundary inside the array */
@@ -259,6 +263,7 @@ static void find_index_case(uint64_t k, uint64_t S, _Bool empty) {
   if (a < n) XV_OBL("kbq.find_index.covers", mon_probe[a] < size && ring_off(in_start, mon_probe[a], size) < k);
   if (a < b && b < n) XV_OBL("kbq.find_index.covers", mon_probe[a] != mon_probe[b]);
   if (!r) XV_OBL("kbq.find_index.covers", n == k);
+  XV_OBL("kbq.sync.scan_acquire", !mon_scan_weak);
   /* result */
   if (r) {
     XV_OBL("kbq.find_index.result", idx < size && ring_off(in_start, idx, size) < k && old == q._queue[idx].value && (MV_get(old) == 0) == empty);
@@ -277,13 +282,14 @@ void h_find_index_N(void) { FOR_SHAPES(find_index_case(k_, S_, 0)); }
 
 /* kbq.segment_empty.spec: true iff every slot of the head segment is empty (no interference) */
 static void segment_empty_case(uint64_t k, uint64_t S) {
-  struct kbq q; havoc_shape(&q, k, S); mon_reset(&q);
+  struct kbq q; havoc_shape(&q, k, S); mon_reset(&q); mon_probes_on = 1;
   uint64_t size = k * S, hs = nondet_u64(), tag = nondet_u64(); XV_ASSUME(hs < S && tag <= TAG_MASK);
   marked_idx h = (hs * k) | (tag << XV_BITS);
   _Bool r = kbq_segment_empty(&q, h);
   _Bool all_empty = 1;
   for (unsigned j = 0; j < KMAX; j++) if (j < k && MV_get(q._queue[hs * k + j].value) != 0) all_empty = 0;
   XV_OBL("kbq.segment_empty.spec", r == all_empty);
+  XV_OBL("kbq.sync.scan_acquire", !mon_scan_weak);
   if (r) XV_CANARY("segment_empty.true"); else XV_CANARY("segment_empty.false");
 }
 void h_segment_empty(void) { FOR_SHAPES(segment_empty_case(k_, S_)); }
@@ -402,7 +408,7 @@ void h_dtor(void) { FOR_SHAPES(dtor_case(k_, S_)); }
 #ifdef XV_INT
 typedef unsigned char u8;
 _Bool e_on, e_arbitrary, e_taken, e_withdrawn, e_can_adv; u8 e_hs, e_ts, e_Ps, e_S; uint64_t e_htag, e_ttag, e_idx, e_k; marked_value e_item; struct kbq* e_q;
-#define E_BOUND (((uint64_t)1) << 40)        /* tags do not wrap during one call */
+#define E_BOUND (TAG_MASK >> 1)               /* tags do not wrap during one call */
 static void env_own_cas(void* addr, uint64_t e, uint64_t d, _Bool ok) {
   if (!e_on || e_arbitrary || !ok) return;
   if (addr == (void*)&e_q->_head) { e_htag = MI_mark(d); if (!e_taken && !e_withdrawn) e_can_adv = 0; }   /* the head word changed: pending stale advances now fail */
